@@ -240,7 +240,22 @@ def _directed(ctx, pk):
         except Exception as e:
             return ["exc", type(e).__name__]
 
+    # a component whose key names a dotted datatype that cannot be resolved at its LAST part (package and module exist)
+    dpk = pk.fresh_name("zcvdtpkg")
+    os.makedirs(os.path.join(pk.root, dpk))
+    open(os.path.join(pk.root, dpk, "__init__.py"), "w").write("")
+    open(os.path.join(pk.root, dpk, "types.py"), "w").write("def port_list(v):\n    return v.split()\n")
+    pk.names.append(dpk)
+    pm = pk.add_component([])
+    with open(os.path.join(pk.root, pm, "component.xml"), "w") as f:
+        f.write("<component><sectiontype name='dirm'><key name='k' datatype='%s.types.port_lst'/></sectiontype></component>" % dpk)
+    # a component that fails while it is being read (it implements an abstract type nobody declared)
+    pbroken = pk.add_component([])
+    with open(os.path.join(pk.root, pbroken, "component.xml"), "w") as f:
+        f.write("<component><sectiontype name='dirx'><key name='k'/></sectiontype><sectiontype name='diry' implements='nosuchabstract'/></component>")
     histories = {
+        "unloadable-dotted-datatype": ["%%import %s\nplain p\n" % pm, "%%import %s\nplain p\n" % pm, "plain q\n",
+                                       "%%import %s\nplain r\n" % pm],
         "import-known-then-other": ["%%import %s\n%%import %s\nplain x\n" % (pa, pb), "plain y\n<dira/>\n", "plain z\n%%import %s\n" % pb],
         "dotted-datatypes-case": ["%%import %s\n<dirc>\nk 5\n</dirc>\n" % pc, "%%import %s\n<dird>\nk 7\n</dird>\n" % pd,
                                   "%%import %s\n%%import %s\n<dird>\nk 1\n</dird>\n<dirc>\nk 2\n</dirc>\n" % (pd, pc)],
@@ -275,23 +290,24 @@ def _directed(ctx, pk):
                             {"schema_xml": xml, "texts": texts, "probe": probe}, signature="C13:directed:" + hname + ":probe")
                 break
     # one ConfigLoader object reused after a load whose FIRST %import failed
-    reused = fresh()
-    d0 = sdigest(reused)
-    ld = ConfigLoader(reused)
-    steps = ["%import zcv_no_such_package_c13\n", "%%import %s\nplain x\n" % pb, "plain y\n"]
-    for i, t in enumerate(steps):
-        a = run(reused, t, loader=ld)
-        b = run(fresh(), t)
-        ctx.evaluations += 1
+    for first_step in ("%import zcv_no_such_package_c13\n", "%%import %s\n" % pbroken, "%%import %s\nplain p\n" % pm):
+        reused = fresh()
+        d0 = sdigest(reused)
+        ld = ConfigLoader(reused)
+        steps = [first_step, "%%import %s\nplain x\n" % pb, "plain y\n", "%%import %s\n<dira/>\n" % pa]
+        for i, t in enumerate(steps):
+            a = run(reused, t, loader=ld)
+            b = run(fresh(), t)
+            ctx.evaluations += 1
+            if a != b:
+                ctx.violate("reused loader, load %d: %r vs %r on a fresh schema and loader" % (i + 1, a, b),
+                            {"schema_xml": xml, "texts": steps, "step": i + 1}, signature="C13:directed:reused-loader:outcome")
+                break
+            if sdigest(reused) != d0:
+                ctx.violate("reused loader: the schema's own description changed after load %d" % (i + 1),
+                            {"schema_xml": xml, "texts": steps[: i + 1]}, signature="C13:directed:reused-loader:digest")
+                break
+        a, b = run(reused, "<dirb/>\n"), run(fresh(), "<dirb/>\n")
         if a != b:
-            ctx.violate("reused loader, load %d: %r vs %r on a fresh schema and loader" % (i + 1, a, b),
-                        {"schema_xml": xml, "texts": steps, "step": i + 1}, signature="C13:directed:reused-loader:outcome")
-            break
-        if sdigest(reused) != d0:
-            ctx.violate("reused loader: the schema's own description changed after load %d" % (i + 1),
-                        {"schema_xml": xml, "texts": steps[: i + 1]}, signature="C13:directed:reused-loader:digest")
-            break
-    a, b = run(reused, "<dirb/>\n"), run(fresh(), "<dirb/>\n")
-    if a != b:
-        ctx.violate("after a failed %%import on a reused loader, '<dirb/>' gives %r on the used schema and %r on a fresh copy" % (a, b),
-                    {"schema_xml": xml, "texts": steps}, signature="C13:directed:reused-loader:probe")
+            ctx.violate("after a failed %%import on a reused loader, '<dirb/>' gives %r on the used schema and %r on a fresh copy" % (a, b),
+                        {"schema_xml": xml, "texts": steps}, signature="C13:directed:reused-loader:probe")
